@@ -30,6 +30,9 @@ var c15Workflows = map[string]string{
 // wbad.yml is not YAML at all: its single diagnostic comes from the reader, not from a rule
 func init() {
 	c15Workflows["wbad.yml"] = "on: push\njobs:\n  a:\n    runs-on: [ubuntu-latest\n    steps:\n      - run: echo\n"
+	// wtie.yml has diagnostics of different rules at the SAME position (twice), after one that stands
+	// alone: "unchanged order" includes the order of diagnostics that sorting by position cannot tell apart
+	c15Workflows["wtie.yml"] = "on: push\njobs:\n  a:\n    foo: 1\n    runs-on: ubuntu-latest\n    steps:\n      - run: echo\n  b:\n    runs-on: ''\n    steps:\n      - run: echo\n  c:\n    runs-on: ''\n    steps:\n      - run: echo\n"
 }
 
 var c15CLISets = [][]string{
@@ -37,6 +40,7 @@ var c15CLISets = [][]string{
 	// patterns are independent of each other: an inline flag, a quotation or a group of one must
 	// not reach the next
 	{"(?i)SHELL NAME", "UNDEFINED VARIABLE"}, {"\\Qshell name", "undefined variable"}, {"(?U)shell.*name", "undefined.*variable$"}, {"^shell name|zzz", "variable"},
+	{"unexpected key"}, {"should not be empty"},
 }
 
 type c15Glob struct {
@@ -45,7 +49,7 @@ type c15Glob struct {
 }
 
 var c15Globs = []c15Glob{
-	{".github/workflows/*.yml", map[string]bool{"w0.yml": true, "w2.yml": true, "w4.yml": true, "wbad.yml": true}},
+	{".github/workflows/*.yml", map[string]bool{"w0.yml": true, "w2.yml": true, "w4.yml": true, "wbad.yml": true, "wtie.yml": true}},
 	{"**/w2.yml", map[string]bool{"w2.yml": true}},
 	{"nomatch/**", map[string]bool{}},
 	{".github/workflows/w4.yml", map[string]bool{"w4.yml": true}},
@@ -109,7 +113,7 @@ const c15OnelineTemplate = "{{range $ := .}}{{$.Filepath}}:{{$.Line}}:{{$.Column
 func TestVerifC15(t *testing.T) {
 	r := vNewReport("C15")
 	defer r.Write(t)
-	r.Extra["rule"] = "4 workflows (one of them not YAML at all) x 13 -ignore sets x 4 paths globs x 4 config ignore sets given by the repository's actionlint.yaml or by -config-file (repository without its own) x {no further entry, a further matching entry, a further non-matching entry, patterns given as YAML aliases} x 4 working directories x 5 path spellings (relative, ./relative, absolute; piped through stdin with a relative / absolute -stdin-filename) through Command.Main (-oneline -no-color), complete product; oracle: unfiltered list minus diagnostics matched by a CLI pattern or by a config pattern whose glob matches the root-relative path, order preserved, exit 1 iff non-empty; plus every ordered pair / triple of files of 6 different locations (repository, sibling repository, nested repository, no repository, repositories whose .git is a file: alone and nested) x 3 working directories x relative / absolute spelling x {-oneline, equivalent -format template} in one invocation; plus exit-status rows (invalid flag 2; unreadable file, bad config, bad -ignore regexp, bad config regexp, non-string ignore element 3). class = (remaining diagnostics, exit status); non-trivial = something is filtered"
+	r.Extra["rule"] = "5 workflows (one of them not YAML at all, one with diagnostics of different rules at the same position) x 15 -ignore sets x 4 paths globs x 4 config ignore sets given by the repository's actionlint.yaml or by -config-file (repository without its own) x {no further entry, a further matching entry, a further non-matching entry, patterns given as YAML aliases} x 4 working directories x 5 path spellings (relative, ./relative, absolute; piped through stdin with a relative / absolute -stdin-filename) through Command.Main (-oneline -no-color), complete product; oracle: unfiltered list minus diagnostics matched by a CLI pattern or by a config pattern whose glob matches the root-relative path, order preserved, exit 1 iff non-empty; plus every ordered pair / triple of files of 6 different locations (repository, sibling repository, nested repository, no repository, repositories whose .git is a file: alone and nested) x 3 working directories x relative / absolute spelling x {-oneline, equivalent -format template} in one invocation; plus exit-status rows (invalid flag 2; unreadable file, bad config, bad -ignore regexp, bad config regexp, non-string ignore element 3). class = (remaining diagnostics, exit status); non-trivial = something is filtered"
 	r.Extra["assumptions"] = []string{"glob match bits are part of the scenario table (written by hand for 4 globs x 3 files)", "working directory is process-global: cases run sequentially inside each worker process"}
 	orig, _ := os.Getwd()
 	defer os.Chdir(orig)
@@ -248,7 +252,7 @@ func TestVerifC15(t *testing.T) {
 		code, out, errOut := c15Main(root, append(append([]string{}, common...), filepath.Join(root, ".github/workflows", n)))
 		ds, _ := c15Parse(out)
 		unfiltered[n] = ds
-		want := map[string]int{"w0.yml": 0, "w2.yml": 2, "w4.yml": 4, "wbad.yml": 1}[n]
+		want := map[string]int{"w0.yml": 0, "w2.yml": 2, "w4.yml": 4, "wbad.yml": 1, "wtie.yml": 5}[n]
 		if len(ds) != want || (code != 0) != (want > 0) {
 			r.HarnessError("C15 seed %s: expected %d diagnostics, got %d (exit %d, stderr %q): %v", n, want, len(ds), code, errOut, ds)
 			return
